@@ -620,8 +620,14 @@ def const_fold(e):
     out = e
     try:
         from .canon import Canon
-        cn = Canon()
-        cn.learn_rules(ctx.side + ctx.extra)
+        # one normaliser per (path, number of rules): its memo of sub-term normal forms is shared by all const_fold calls
+        # (series coefficients are deep DAGs sharing almost all sub-terms from one call to the next)
+        shared = ctx.data.get("const_fold_canon")
+        if shared is None or shared[0] != key[1:]:
+            cn = Canon()
+            cn.learn_rules(ctx.side + ctx.extra)
+            ctx.data["const_fold_canon"] = shared = (key[1:], cn)
+        cn = shared[1]
         r = cn.reduce_rf(cn.rf(e)).simplify_const_den()
         if r.n.is_zero():
             out = z3.RealVal(0)
